@@ -4,7 +4,12 @@
 //! answer: `ord`  -> `ok <partial: lt|eq|gt|none> <num_cmp: lt|eq|gt|-> <eq><ne><lt><le><gt><ge>`
 //!         `abs`  -> `ok lt|eq|gt`
 //!         `hash` -> `ok <the i128 fed to the hasher, [-]hex> <number of bytes written>`
-use dashu_base::AbsOrd;
+//! case:   `est A` (A a big integer, float or rational token): EstimatedLog2::log2_bounds, and Repr::digits_ub for floats
+//! answer: `ok <lb f32 bits> <ub f32 bits> <digits_ub | -> <k> (<x f32 bits> <f32::log2(x) bits>) * k`
+//!         the k pairs are the libm values the std estimator can ask for on this operand (the oracle runs the
+//!         transcribed f32 arithmetic around them)
+//! case:   `ordf A B` | `absf A B` | `cmpf A B`: as `ord` / `abs` / `cmp`, the answer followed by `t <k> pairs` for both operands
+use dashu_base::{AbsOrd, BitTest, EstimatedLog2, UnsignedAbs};
 use hlib::*;
 use num_order::{NumHash, NumOrd};
 use std::cmp::Ordering;
@@ -208,8 +213,135 @@ fn hash(a: &Val) -> String {
     each!(hash_one, a; U I F2 F3 F10 F16 G2 G3 G10 G16 Q R u8 u16 u32 u64 u128 usize i8 i16 i32 i64 i128 isize f32 f64)
 }
 
+/// the arguments of f32::log2 that impl_log2_bounds_for_uint (std) can use for this magnitude
+fn lg_inputs(u: &UBig, out: &mut Vec<f32>) {
+    if u.is_zero() {
+        return;
+    }
+    let bits = u.bit_len();
+    // RefSmall: the double word itself; RefLarge: the two highest words
+    let x: u128 = if bits <= 128 {
+        u128::try_from(u).unwrap()
+    } else {
+        let words = (bits + 63) / 64;
+        u128::try_from(&(u >> (64 * (words - 2)))).unwrap()
+    };
+    if x.is_power_of_two() {
+        return;
+    }
+    let nbits = 128 - x.leading_zeros();
+    if nbits <= 24 {
+        out.push(x as f32);
+    } else {
+        let shifted = (x >> (nbits - 24)) as f32;
+        out.push(shifted);
+        out.push(shifted + 1.);
+    }
+}
+
+fn float_inputs<const B: Word>(r: &Repr<B>, ins: &mut Vec<f32>) {
+    lg_inputs(&r.significand().clone().unsigned_abs(), ins);
+    lg_inputs(&UBig::from(B), ins);
+}
+
+/// every libm value the estimators can ask for on this operand
+fn val_inputs(a: &Val, ins: &mut Vec<f32>) {
+    match a {
+        Val::U(x) => lg_inputs(x, ins),
+        Val::I(x) => lg_inputs(&x.clone().unsigned_abs(), ins),
+        Val::F2(x) => float_inputs(x.repr(), ins),
+        Val::F3(x) => float_inputs(x.repr(), ins),
+        Val::F10(x) => float_inputs(x.repr(), ins),
+        Val::F16(x) => float_inputs(x.repr(), ins),
+        Val::G2(x) => float_inputs(x, ins),
+        Val::G3(x) => float_inputs(x, ins),
+        Val::G10(x) => float_inputs(x, ins),
+        Val::G16(x) => float_inputs(x, ins),
+        Val::Q(x) => {
+            lg_inputs(&x.numerator().clone().unsigned_abs(), ins);
+            lg_inputs(x.denominator(), ins);
+        }
+        Val::R(x) => {
+            lg_inputs(&x.numerator().clone().unsigned_abs(), ins);
+            lg_inputs(x.denominator(), ins);
+        }
+        Val::u8(x) => lg_inputs(&UBig::from(*x), ins),
+        Val::u16(x) => lg_inputs(&UBig::from(*x), ins),
+        Val::u32(x) => lg_inputs(&UBig::from(*x), ins),
+        Val::u64(x) => lg_inputs(&UBig::from(*x), ins),
+        Val::u128(x) => lg_inputs(&UBig::from(*x), ins),
+        Val::usize(x) => lg_inputs(&UBig::from(*x), ins),
+        Val::i8(x) => lg_inputs(&UBig::from(x.unsigned_abs()), ins),
+        Val::i16(x) => lg_inputs(&UBig::from(x.unsigned_abs()), ins),
+        Val::i32(x) => lg_inputs(&UBig::from(x.unsigned_abs()), ins),
+        Val::i64(x) => lg_inputs(&UBig::from(x.unsigned_abs()), ins),
+        Val::i128(x) => lg_inputs(&UBig::from(x.unsigned_abs()), ins),
+        Val::isize(x) => lg_inputs(&UBig::from(x.unsigned_abs()), ins),
+        Val::f32(_) | Val::f64(_) => {}
+    }
+}
+
+fn table(ins: &[f32]) -> String {
+    let mut s = format!("{:x}", ins.len());
+    for x in ins {
+        s.push_str(&format!(" {:x} {:x}", x.to_bits(), x.log2().to_bits()));
+    }
+    s
+}
+
+fn est_float<const B: Word>(r: &Repr<B>) -> ((f32, f32), Option<usize>) {
+    (r.log2_bounds(), if r.is_infinite() { None } else { Some(r.digits_ub()) })
+}
+
+fn est(a: &Val) -> String {
+    let mut ins = Vec::new();
+    val_inputs(a, &mut ins);
+    let (b, dub) = match a {
+        Val::U(x) => (x.log2_bounds(), None),
+        Val::I(x) => (x.log2_bounds(), None),
+        Val::F2(x) => est_float(x.repr()),
+        Val::F3(x) => est_float(x.repr()),
+        Val::F10(x) => est_float(x.repr()),
+        Val::F16(x) => est_float(x.repr()),
+        Val::G2(x) => est_float(x),
+        Val::G3(x) => est_float(x),
+        Val::G10(x) => est_float(x),
+        Val::G16(x) => est_float(x),
+        Val::Q(x) => (x.log2_bounds(), None),
+        Val::R(x) => (x.log2_bounds(), None),
+        _ => return "err no-impl".into(),
+    };
+    format!("ok {:x} {:x} {} {}", b.0.to_bits(), b.1.to_bits(), dub.map(|d| format!("{:x}", d)).unwrap_or("-".into()), table(&ins))
+}
+
+/// the answer of `ord` / `abs` / `cmp` followed by the libm table of both operands
+fn with_tables(ans: Option<String>, a: &Val, b: &Val) -> String {
+    match ans {
+        None => "err no-impl".into(),
+        Some(s) => {
+            let mut ins = Vec::new();
+            val_inputs(a, &mut ins);
+            val_inputs(b, &mut ins);
+            format!("{} t {}", s, table(&ins))
+        }
+    }
+}
+
 fn run(op: &str, a: &[&str]) -> String {
     match op {
+        "est" => est(&parse(a[0])),
+        "ordf" => {
+            let (x, y) = (parse(a[0]), parse(a[1]));
+            with_tables(ord(&x, &y), &x, &y)
+        }
+        "absf" => {
+            let (x, y) = (parse(a[0]), parse(a[1]));
+            with_tables(abs(&x, &y), &x, &y)
+        }
+        "cmpf" => {
+            let (x, y) = (parse(a[0]), parse(a[1]));
+            with_tables(cmp(&x, &y), &x, &y)
+        }
         "ord" => ord(&parse(a[0]), &parse(a[1])).unwrap_or_else(|| "err no-impl".into()),
         "abs" => abs(&parse(a[0]), &parse(a[1])).unwrap_or_else(|| "err no-impl".into()),
         "cmp" => cmp(&parse(a[0]), &parse(a[1])).unwrap_or_else(|| "err no-impl".into()),
